@@ -19,6 +19,7 @@ import time
 from . import core
 from .common import parse_kv
 
+OWN_REPLAY = True
 LEVEL = "proof"
 
 PYTM = os.path.join(core.CACHE, "pytm")
